@@ -573,13 +573,16 @@ Lemma link_result_default_evqe o : is_evqe_type o = true ->
 Proof. intros H. unfold gen_result_default. rewrite link_evqe_serializable_types, H, bind_ok. apply link_evqe_default. Qed.
 Print Assumptions link_result_default_evqe.
 
-Lemma link_result_default_quasi data shots bound :
-  gen_result_default layer_default evqe_default (result_default head_flags) (PObj CQuasiDist [PDict data; shots; bound])
-  = result_default head_flags (PObj CQuasiDist [PDict data; shots; bound]).
+Lemma link_result_default_quasi data shots bound width :
+  gen_result_default layer_default evqe_default (result_default head_flags) (PObj CQuasiDist [PDict data; shots; bound; width])
+  = result_default head_flags (PObj CQuasiDist [PDict data; shots; bound; width]).
 Proof.
   unfold gen_result_default.
   cbn [existsb gen_evqe_serializable_types is_instance cls_eqb orb is_none view_complex view_quasi fst snd].
-  rewrite pairs_value. reflexivity.
+  cbn [result_default is_evqe_serializable is_evqe_type legacy_width head_flags].
+  unfold quasi_bp. cbn [fst snd]. rewrite pairs_value.
+  destruct (as_int width) as [w|]; cbn [bind]; [|reflexivity].
+  destruct (quasi_binary_keys data w) as [[|b l]|]; cbn [bind]; reflexivity.
 Qed.
 Print Assumptions link_result_default_quasi.
 
@@ -603,7 +606,7 @@ Proof.
   - (* EVQEIndividual *) rewrite link_result_default_evqe by reflexivity. reflexivity.
   - (* EVQEPopulation *) rewrite link_result_default_evqe by reflexivity. reflexivity.
   - (* QuasiDistribution *)
-    destruct l as [|x1 [|x2 [|x3 [|x4 l]]]]; try reflexivity; destruct x1; try reflexivity.
+    destruct l as [|x1 [|x2 [|x3 [|x4 [|x5 l]]]]]; try reflexivity; destruct x1; try reflexivity.
     apply link_result_default_quasi.
   - (* BasePopulationEvaluationResult *)
     destruct l as [|x1 [|x2 [|x3 [|x4 [|x5 l]]]]]; reflexivity.
@@ -673,9 +676,8 @@ Lemma link_parse_complex_number : forall d, gen_parse_complex_number d = parse_c
 Proof. parse_link gen_parse_complex_number parse_complex_number. Qed.
 Print Assumptions link_parse_complex_number.
 
-Lemma link_parse_quasidistribution : forall d, gen_parse_quasidistribution d = parse_quasidistribution d.
-Proof. parse_link gen_parse_quasidistribution parse_quasidistribution. Qed.
-Print Assumptions link_parse_quasidistribution.
+(* parse_quasidistribution is not translated since fix 110f6bc (`format(key, f"0{num_bits}b")`: computed format spec, outside the
+   translator's subset); in the generated hook its call stands for the model's parse_quasidistribution head_flags (spec). *)
 
 (* BytesIO / b64decode / qpy_load are opaque: the text IS the circuit token *)
 Lemma link_parse_quantum_circuit : forall d, gen_parse_quantum_circuit d = parse_quantum_circuit d.
@@ -746,7 +748,7 @@ Proof.
   rewrite !any_key_eq.
   match goal with |- context [any_key_in (?x :: ?t) d] => change (x :: t) with result_own_keys end.
   gen_keys d. dict_norm.
-  rewrite link_evqe_hook, link_parse_complex_number, link_parse_quasidistribution, link_parse_quantum_circuit,
+  rewrite link_evqe_hook, link_parse_complex_number, link_parse_quantum_circuit,
     link_parse_base_population_evaluation. reflexivity.
 Qed.
 Print Assumptions link_result_hook.
